@@ -241,7 +241,7 @@ func planE1(prop, tier string) *e1Plan {
 		lp := scopeListPkg()
 		p.pkgs = append(p.pkgs, lp)
 		for _, l := range scopeListArgs() {
-			if strings.Contains(strings.Join(l, " "), "LK") || strings.Contains(strings.Join(l, " "), "LE") {
+			if strings.Contains(strings.Join(l, " "), "LK") || strings.Contains(strings.Join(l, " "), "LE") || strings.Contains(strings.Join(l, " "), "LM") {
 				for _, c := range K2 {
 					p.cases = append(p.cases, &Case{Dir: lp.Dir, Ifaces: l, Cfg: c, Scope: "S-list"})
 				}
@@ -280,6 +280,7 @@ func planE1(prop, tier string) *e1Plan {
 		p.oracle = oracleC12
 		p.add(scopeName2("pairs"), KN)
 		p.add(scopeName2("rest"), KN)
+		p.add(scopeGen(), K2)
 		if thorough {
 			p.add(scopeName3(), cfgNames())
 		}
@@ -287,6 +288,11 @@ func planE1(prop, tier string) *e1Plan {
 	case "C13":
 		pkgs, expect := scopeC13()
 		p.oracle = oracleC13(expect)
+		n := 0
+		for _, ms := range expect {
+			n += len(ms)
+		}
+		p.bounds = map[string]any{"parameter_names_and_types_checked_per_configuration": n}
 		p.add(pkgs, K6)
 		p.rule = "every golint initialism in every case pattern (all 2^len for len ≤ 5), affixed variants, ordinary names incl. digits, underscores and non-ASCII letters, and the documented unnamed-parameter types, one parameter per method; oracle: independent copy of the naming rule vs. parameter names of <M>Func / the method and the field name of the <M>Calls() element struct, read from the type-checked output"
 	case "C19":
